@@ -544,8 +544,8 @@ func main() {
 			map[string]string{"peer1.PeerType() == k8s.PodType": "p1IsPod", "peer2.PeerType() == k8s.PodType": "p2IsPod",
 				"peer1.GetPeerPod().Name": "name1", "peer2.GetPeerPod().Name": "name2", "peer1.GetPeerPod().Namespace": "ns1", "peer2.GetPeerPod().Namespace": "ns2",
 				"peer1.GetPeerPod().FakePod": "fake1", "peer2.GetPeerPod().FakePod": "fake2"}},
-		{"pkg/netpol/connlist/connlist.go", "ConnlistAnalyzer.isPeerFocusWorkload", "isPeerFocusWorkload", []string{"(focus name nsName : String)"},
-			map[string]string{"ca.focusWorkload": "focus", "peer.Name()": "name", "getPeerNsNameFormat(peer)": "nsName"}},
+		{"pkg/netpol/connlist/connlist.go", "ConnlistAnalyzer.isPeerFocusWorkload", "isPeerFocusWorkload", []string{"(focus name nsName : String)", "(isIP : Bool)"},
+			map[string]string{"ca.focusWorkload": "focus", "peer.Name()": "name", "getPeerNsNameFormat(peer)": "nsName", "peer.IsPeerIPType()": "isIP"}},
 		{"pkg/netpol/internal/common/portset.go", "PortSet.ContainedIn", "", nil, nil}, // fingerprint only
 	}
 	L.WriteString("\n")
